@@ -248,7 +248,9 @@ pub fn check_minimal(cfg: &Cfg, diags: &[imp::Diag]) -> (u64, Option<(String, St
         if let Some(rd) = node.writes_to() {
             // the statement only says when a warning may be given; the stack pointer is the one
             // register whose dead writes (releasing main's frame before the exit) are not reported
-            if rout[i] & (1 << rd.get().to_num()) == 0 && !node.can_skip_save_checks() && rd.get().to_num() != 2 {
+            // ... and about an instruction that nothing reaches nothing is said but that
+            let unreachable = n.prevs().is_empty() && !n.is_any_entry();
+            if rout[i] & (1 << rd.get().to_num()) == 0 && !node.can_skip_save_checks() && rd.get().to_num() != 2 && !unreachable {
                 let r = rd.range();
                 expected.insert((r.start().raw_index(), r.end().raw_index()));
             }
